@@ -62,3 +62,28 @@ Proof.
     apply andb_true_iff in Hq as [H1 H3]. apply andb_true_iff in H1 as [H1 H2].
     apply String.eqb_eq in H1. cbn in Hx. f_equal; [f_equal; [assumption|apply Hx; assumption]|apply IHr; assumption].
 Qed.
+
+(* JSON pointer escaping of a reference token (RFC 6901): '~' -> "~0", '/' -> "~1".
+   The code does it with two str::replace calls in that order (esc_seq); one pass gives the same string. *)
+Fixpoint esc_tok (s : string) : string :=
+  match s with
+  | EmptyString => EmptyString
+  | String c r => if Ascii.eqb c "~"%char then String "~"%char (String "0"%char (esc_tok r))
+                  else if Ascii.eqb c "/"%char then String "~"%char (String "1"%char (esc_tok r))
+                  else String c (esc_tok r)
+  end.
+
+Fixpoint repl_char (a x y : ascii) (s : string) : string :=
+  match s with
+  | EmptyString => EmptyString
+  | String c r => if Ascii.eqb c a then String x (String y (repl_char a x y r)) else String c (repl_char a x y r)
+  end.
+Definition esc_seq (s : string) : string := repl_char "/"%char "~"%char "1"%char (repl_char "~"%char "~"%char "0"%char s).
+
+Lemma esc_tok_seq s : esc_tok s = esc_seq s.
+Proof.
+  unfold esc_seq. induction s as [|c r IH]; [reflexivity|]. cbn [esc_tok repl_char].
+  destruct (Ascii.eqb c "~"%char) eqn:E1.
+  - cbn [repl_char]. cbn [Ascii.eqb Bool.eqb andb]. rewrite IH. reflexivity.
+  - cbn [repl_char]. destruct (Ascii.eqb c "/"%char); rewrite IH; reflexivity.
+Qed.
